@@ -348,25 +348,91 @@ def _observe(view, op, n):
         return "stop", None
 
 
-def _codes(kind: str, smin: int, smax: int):
-    """The call alphabet of one configuration: (op, size) pairs; size -1 = None (no argument)."""
-    out = []
-    for op in _ops_for(kind):
-        if op in SIZED:
-            out.extend((op, z) for z in range(smin, smax + 1))
-        else:
-            out.append((op, 0))
-    return out
+GROUP_SIZED, GROUP_ROW, GROUP_CLOSING = 0, 1, 2
+_ORDER = [FETCHMANY, PART,  # sized
+          FETCHONE, NEXT, ITER,  # row at a time
+          ALL, FETCHALL, CLOSE, FIRST, ONE, ONE_OR_NONE, SCALAR, SCALAR_ONE, SCALAR_ONE_OR_NONE]  # closing; ONLY_ONE last
 
 
-def _drive(view, model, table, codes, after=None):
+class _Table:
+    """The call alphabet of one configuration: (op, size) pairs, size -1 = None (no argument), ordered so that
+    every class of calls the slicing refers to is a contiguous range of codes (a range test on a symbolic
+    code costs two solver decisions; decoding it costs one per table entry)."""
+
+    def __init__(self, kind: str, smin: int, smax: int, no_zero: bool = False):
+        allowed = _ops_for(kind)
+        self.calls = []
+        for op in _ORDER:
+            if op not in allowed:
+                continue
+            if op in SIZED:
+                self.calls.extend((op, z) for z in range(smin, smax + 1) if not (no_zero and z == 0))
+            else:
+                self.calls.append((op, 0))
+        ops = [c[0] for c in self.calls]
+
+        def rng(pred):
+            idx = [i for i, o in enumerate(ops) if pred(o)]
+            assert idx == list(range(idx[0], idx[-1] + 1))
+            return idx[0], idx[-1] + 1
+
+        self.group = {GROUP_SIZED: rng(lambda o: o in SIZED), GROUP_ROW: rng(lambda o: o in (FETCHONE, NEXT, ITER)),
+                      GROUP_CLOSING: rng(lambda o: o not in SIZED and o not in (FETCHONE, NEXT, ITER))}
+        self.only_one = rng(lambda o: o in ONLY_ONE)
+        self.close = ops.index(CLOSE)
+        self.fetchall = ops.index(FETCHALL)
+        self.zero = [i for i, c in enumerate(self.calls) if c[0] in SIZED and c[1] == 0]
+
+
+_TABLES = {}
+
+
+def _table(kind: str, smin: int, smax: int, no_zero: bool = False) -> _Table:
+    key = (kind, smin, smax, no_zero)
+    if key not in _TABLES:
+        _TABLES[key] = _Table(*key)
+    return _TABLES[key]
+
+
+def _in(c, rng) -> bool:
+    return rng[0] <= c < rng[1]
+
+
+def _risky(risk: str, T: _Table, codes) -> bool:
+    """Histories on which a defect already attributed to a specific root cause (see classify) can show.
+    Purely a *partition* of the history space into slices (tail=1: the complement, tail=2: these), so that
+    the framework's per-slice cap on recorded counterexamples bounds the replay work; both parts are explored
+    in full with the same oracle."""
+    last = len(codes) - 1
     for t in range(len(codes)):
         c = codes[t]
-        assume(0 <= c < len(table))
-        op, n = table[int(c)]
-        assume(t == 0 or op != FETCHALL)  # synonym of all(): only as a single call
-        if op in SIZED and n < 0:
-            assume(model.yp is None or model.yp >= 1)
+        if "u" in risk and t >= 1 and _in(c, T.only_one):
+            return True  # first()/one()/scalar*() after rows were consumed, under unique()
+        if "m" in risk and t < last and (c == T.close or _in(c, T.only_one)):
+            return True  # something follows a closing call on a MergedResult
+        if "d" in risk and t >= 1 and _in(c, T.group[GROUP_SIZED]):
+            return True  # fetchmany()/partitions() after another fetch, dynamic_yield_per
+        if "f" in risk and t < last:
+            for z in T.zero:
+                if c == z:
+                    return True  # something follows fetchmany(0) on the fully buffered strategy
+    return False
+
+
+def _drive(view, model, T, codes, g0, g1, risk, tail, after=None):
+    # the part of the history space this slice is responsible for (range tests on the symbolic codes) ...
+    for t in range(len(codes)):
+        assume(0 <= codes[t] < len(T.calls))
+        assume(t == 0 or codes[t] != T.fetchall)  # synonym of all(): only as a single call
+    if g0 >= 0:
+        assume(_in(codes[0], T.group[g0]))
+    if g1 >= 0:
+        assume(_in(codes[1], T.group[g1]))
+    if tail:
+        assume(_risky(risk, T, codes) == (tail == 2))
+    # ... then call by call: decode (indexing the table with a symbolic code forks once per entry) and run
+    for t in range(len(codes)):
+        op, n = T.calls[codes[t]]
         kind, got = _observe(view, op, n)
         if not model.step(op, n, kind, got):
             return False
@@ -405,11 +471,11 @@ def _build_source(src: str, vals, n, ncols, k: int, con: bool):
     raise AssertionError(src)
 
 
-def _args(nmax, nops, c0, vs, cs):
-    return list(vs[:nmax]), [c0] + list(cs[: nops - 1])
+def _args(nmax, nops, vs, cs):
+    return list(vs[:nmax]), list(cs[:nops])
 
 
-def _run_mem(src, flt, k, nmax, smin, smax, n, vals, codes, variant=None):
+def _run_mem(src, flt, k, nmax, smin, smax, g0, g1, tail, n, vals, codes, variant=None):
     assume(0 <= n <= nmax)
     f = FILTERS[flt]
     ncols = f["ncols"]
@@ -427,13 +493,26 @@ def _run_mem(src, flt, k, nmax, smin, smax, n, vals, codes, variant=None):
     else:
         view = f["apply"](_build_source(src, vals, n, ncols, k, f["uniq"]), k)
     model = _Model(vals, n, ncols, f["cols"], f["kind"], f["uniq"], yp, variant)
-    return _drive(view, model, _codes(f["kind"], smin, smax), codes)
+    return _drive(view, model, _table(f["kind"], smin, smax), codes, g0, g1, _risk_of(src, flt), tail)
 
 
-def h_mem(src: str, flt: str, k: int, nmax: int, nops: int, c0: int, smin: int, smax: int, n: int,
-          v0: int, v1: int, v2: int, v3: int, v4: int, v5: int, c1: int, c2: int, c3: int) -> bool:
-    vals, codes = _args(nmax, nops, c0, (v0, v1, v2, v3, v4, v5), (c1, c2, c3))
-    return _run_mem(src, flt, k, nmax, smin, smax, n, vals, codes)
+def _risk_of(src_or_strategy: str, flt: str) -> str:
+    r = ""
+    if FILTERS[flt]["uniq"]:
+        r += "u"
+    if src_or_strategy.startswith("merged"):
+        r += "m"
+    if src_or_strategy == "chunked_dyn":
+        r += "d"
+    if src_or_strategy.startswith("fully"):
+        r += "f"
+    return r
+
+
+def h_mem(src: str, flt: str, k: int, nmax: int, nops: int, smin: int, smax: int, g0: int, g1: int, tail: int, n: int,
+          v0: int, v1: int, v2: int, v3: int, v4: int, v5: int, c0: int, c1: int, c2: int, c3: int) -> bool:
+    vals, codes = _args(nmax, nops, (v0, v1, v2, v3, v4, v5), (c0, c1, c2, c3))
+    return _run_mem(src, flt, k, nmax, smin, smax, g0, g1, tail, n, vals, codes)
 
 
 # ------------------------------------------------------------------------------------------
@@ -549,7 +628,7 @@ _WANT = {"default": _cursor.CursorFetchStrategy, "default_yp": _cursor.CursorFet
          "fully": _cursor.FullyBufferedCursorFetchStrategy, "fully_yp": _cursor.FullyBufferedCursorFetchStrategy}
 
 
-def _run_cur(strategy, flt, k, nmax, smin, smax, n, m, vals, codes, variant=None):
+def _run_cur(strategy, flt, k, nmax, smin, smax, g0, g1, tail, n, m, vals, codes, variant=None):
     assume(0 <= n <= nmax)
     f = FILTERS[flt]
     SRV.reset(vals, n, f["uniq"])
@@ -589,23 +668,20 @@ def _run_cur(strategy, flt, k, nmax, smin, smax, n, m, vals, codes, variant=None
                     return False
             return True
 
-        return _drive(view, model, _cur_codes(strategy, f["kind"], smin, smax), codes, after)
+        return _drive(view, model, _cur_table(strategy, f["kind"], smin, smax), codes, g0, g1, _risk_of(strategy, flt), tail, after)
     finally:
         conn.close()
 
 
-def _cur_codes(strategy, kind, smin, smax):
-    table = _codes(kind, smin, smax)
-    if strategy == "default":
-        # fetchmany(0) on the pass-through strategy is whatever the DBAPI makes of it -> outside
-        table = [c for c in table if not (c[0] in SIZED and c[1] == 0)]
-    return table
+def _cur_table(strategy, kind, smin, smax) -> _Table:
+    # fetchmany(0) on the pass-through strategy is whatever the DBAPI makes of it -> outside
+    return _table(kind, smin, smax, strategy == "default")
 
 
-def h_cur(strategy: str, flt: str, k: int, nmax: int, nops: int, c0: int, smin: int, smax: int, n: int, m: int,
-          v0: int, v1: int, v2: int, v3: int, v4: int, v5: int, c1: int, c2: int, c3: int) -> bool:
-    vals, codes = _args(nmax, nops, c0, (v0, v1, v2, v3, v4, v5), (c1, c2, c3))
-    return _run_cur(strategy, flt, k, nmax, smin, smax, n, m, vals, codes)
+def h_cur(strategy: str, flt: str, k: int, nmax: int, nops: int, smin: int, smax: int, g0: int, g1: int, tail: int, n: int, m: int,
+          v0: int, v1: int, v2: int, v3: int, v4: int, v5: int, c0: int, c1: int, c2: int, c3: int) -> bool:
+    vals, codes = _args(nmax, nops, (v0, v1, v2, v3, v4, v5), (c0, c1, c2, c3))
+    return _run_cur(strategy, flt, k, nmax, smin, smax, g0, g1, tail, n, m, vals, codes)
 
 
 # ------------------------------------------------------------------------------------------
@@ -650,41 +726,45 @@ META = {
 }
 
 
-NONTERMINAL = (FETCHONE, FETCHMANY, PART, NEXT, ITER)
-
-
 def _slices(configs, cursor=False):
-    """One slice per (configuration, history length, first call).  ``first`` = "all": every call of the
-    alphabet may come first; "nonterminal": histories of length >= 2 start with a call that leaves the
-    result open (fetchone/fetchmany/partitions/next/iter) -- what follows a closing first call is covered
-    at full width by the "all" configurations of the same source class.  Inputs that cannot influence the
-    run (values beyond nmax, codes beyond the history length, max_row_buffer of strategies that do not read
-    it) are fixed, so they are not symbolic at all."""
+    """Slices partition the history space of one configuration by history length, by the group of the first
+    (for length 3 also the second) call -- sized / row-at-a-time / closing -- and, for configurations where an
+    already attributed defect can show, into the histories that can trigger it (tail=2, first call symbolic)
+    and the rest (tail=1).  ``first`` = "nonterminal": histories of length >= 2 start with a call that leaves
+    the result open; what follows a closing first call is covered at full width by the "all" configurations.
+    Inputs that cannot influence the run (values beyond nmax, codes beyond the history length, max_row_buffer
+    of strategies that do not read it) are fixed, so they are not symbolic at all."""
     out = []
     for cfg in configs:
         cfg = dict(cfg)
         first, maxops = cfg.pop("first"), cfg.pop("maxops")
-        f = FILTERS[cfg["flt"]]
-        if cursor:
-            table = _cur_codes(cfg["strategy"], f["kind"], cfg["smin"], cfg["smax"])
-        else:
-            table = _codes(f["kind"], cfg["smin"], cfg["smax"])
-        for nops in range(1, maxops + 1):
-            for c0 in range(len(table)):
-                op0 = table[c0][0]
-                if nops > 1 and (op0 == FETCHALL or (first == "nonterminal" and op0 not in NONTERMINAL)):
-                    continue
-                if f.get("yp") is None and False:
-                    continue
-                d = dict(cfg)
-                d.update(nops=nops, c0=c0)
-                for i in range(cfg["nmax"], 6):
-                    d["v%d" % i] = 0
-                for i in range(nops, 4):
-                    d["c%d" % i] = 0
-                if cursor and cfg["strategy"] not in ("buffered", "buffered_yp"):
-                    d["m"] = 0
-                out.append(d)
+        risk = _risk_of(cfg.get("src", cfg.get("strategy")), cfg["flt"])
+        groups = (GROUP_SIZED, GROUP_ROW) if first == "nonterminal" else (GROUP_SIZED, GROUP_ROW, GROUP_CLOSING)
+
+        def add(nops, g0, g1, tail):
+            d = dict(cfg)
+            d.update(nops=nops, g0=g0, g1=g1, tail=tail)
+            for i in range(cfg["nmax"], 6):
+                d["v%d" % i] = 0
+            for i in range(nops, 4):
+                d["c%d" % i] = 0
+            if cursor and cfg["strategy"] not in ("buffered", "buffered_yp"):
+                d["m"] = 0
+            out.append(d)
+
+        add(1, -1, -1, 0)
+        for nops in range(2, maxops + 1):
+            for g0 in groups:
+                for g1 in ((-1,) if nops < 3 else (GROUP_SIZED, GROUP_ROW, GROUP_CLOSING)):
+                    add(nops, g0, g1, 1 if risk else 0)
+            if risk:
+                if nops < 3:
+                    add(nops, -1 if first == "all" else GROUP_SIZED, -1, 2)
+                    if first != "all":
+                        add(nops, GROUP_ROW, -1, 2)
+                else:
+                    for g0 in groups:
+                        add(nops, g0, -1, 2)
     return out
 
 
@@ -694,9 +774,10 @@ def _configs(tier: str):
     if q:
         core = dict(nmax=3, smin=-1, smax=2, maxops=2, first="all")
         rest = dict(nmax=3, smin=-1, smax=2, maxops=2, first="nonterminal")
+        core2 = core
     else:
-        core = dict(nmax=4, smin=-1, smax=3, maxops=3, first="all")
-        rest = dict(nmax=6, smin=-1, smax=5, maxops=2, first="all")
+        core = dict(nmax=3, smin=-1, smax=2, maxops=3, first="all")
+        rest = core2 = dict(nmax=4, smin=-1, smax=3, maxops=2, first="all")
     mem, cur = [], []
 
     def M(src, flt, k=0, cls=None):
@@ -707,20 +788,21 @@ def _configs(tier: str):
 
     M("iter", "plain", cls=core)
     M("iter", "uniq1", cls=core)
-    M("merged", "plain", 1, cls=core)
+    M("merged", "plain", 1, cls=core2)
     for flt in ("scalars0", "mappings", "columns10", "uniq_scalars", "uniq_strategy"):
         M("iter", flt)
     M("iter", "yield_per", 2)
-    M("iter", "uniq_yp", 2)
-    M("sscalar", "scalars1c")
     M("sscalar", "uniq1")
+    if not q:
+        M("iter", "uniq_yp", 2)
+        M("sscalar", "scalars1c")
     M("chunked", "yield_per", 2)
     M("chunked_dyn", "plain")
     M("chunked_dyn", "yield_per", 2)
     M("frozen", "plain")
     M("frozen_pre", "uniq_cols0")
     M("merged", "uniq1", 1)
-    C("default", "plain", cls=core)
+    C("default", "plain", cls=rest if q else core2)
     C("buffered", "plain", cls=core)
     C("fully", "plain", cls=core)
     C("buffered", "uniq_cols0")
@@ -756,7 +838,7 @@ def _configs(tier: str):
                 if not (flt == "plain" or (st == "buffered" and flt == "uniq_cols0")):
                     C(st, flt)
         for st in ("default_yp", "buffered_yp", "fully_yp"):
-            for k in (1, 2, 3):
+            for k in ((1, 2, 3) if st == "default_yp" else (2,)):
                 if not (st == "default_yp" and k == 2):
                     C(st, "plain", k)
             C(st, "uniq_cols0", 2)
@@ -774,23 +856,24 @@ def harnesses(tier: str) -> List[Harness]:
     q = tier == "quick"
     mem, cur, core, rest = _configs(tier)
     META["bounds"][tier] = {
-        "core configurations (iter/plain, iter/unique, merged/plain; cursor default, buffered, fully buffered)": _describe(core),
-        "other configurations (%d in-memory, %d cursor)" % (len(mem) - 3, len(cur) - 3): _describe(rest),
+        "core configurations (iter/plain, iter/unique; cursor buffered, fully buffered%s)"
+        % (", merged/plain, cursor default" if q else ""): _describe(core),
+        "other configurations": _describe(rest),
         "first-column values": "0..2 where uniquing hashes them, unconstrained ints otherwise",
         "max_row_buffer": "1..7 symbolic", "yield_per": "2" if q else "1..3",
         "configurations": sorted({"%s/%s" % (c["src"], c["flt"]) for c in mem} | {"cursor:%s/%s" % (c["strategy"], c["flt"]) for c in cur}),
     }
     return [
-        Harness("mem", h_mem, _slices(mem), budget_s=60 if q else 900),
-        Harness("cur", h_cur, _slices(cur, cursor=True), budget_s=60 if q else 900),
+        Harness("mem", h_mem, _slices(mem), budget_s=240 if q else 1500),
+        Harness("cur", h_cur, _slices(cur, cursor=True), budget_s=240 if q else 1500),
     ]
 
 
 def _decode(hname, a):
     f = FILTERS[a["flt"]]
-    table = _cur_codes(a["strategy"], f["kind"], a["smin"], a["smax"]) if hname == "cur" else _codes(f["kind"], a["smin"], a["smax"])
-    codes = [a["c0"]] + [a["c%d" % i] for i in range(1, a["nops"])]
-    calls = [table[c] for c in codes]
+    T = _cur_table(a["strategy"], f["kind"], a["smin"], a["smax"]) if hname == "cur" else _table(f["kind"], a["smin"], a["smax"])
+    codes = [a["c%d" % i] for i in range(a["nops"])]
+    calls = [T.calls[c] for c in codes]
     vals = [a["v%d" % i] for i in range(a["nmax"])]
     return calls, codes, vals
 
@@ -827,8 +910,9 @@ def classify(hname, args, rep):
         b = dict(a)
         b.update(over)
         if hname == "mem":
-            return _holds(_run_mem, b["src"], b["flt"], b["k"], b["nmax"], b["smin"], b["smax"], b["n"], vals, codes, variant)
-        return _holds(_run_cur, b["strategy"], b["flt"], b["k"], b["nmax"], b["smin"], b["smax"], b["n"], b["m"], vals, codes, variant)
+            return _holds(_run_mem, b["src"], b["flt"], b["k"], b["nmax"], b["smin"], b["smax"], -1, -1, 0, b["n"], vals, codes, variant)
+        return _holds(_run_cur, b["strategy"], b["flt"], b["k"], b["nmax"], b["smin"], b["smax"], -1, -1, 0, b["n"], b["m"], vals, codes,
+                      variant)
 
     uniq = FILTERS[a["flt"]]["uniq"]
     if uniq and any(o in ONLY_ONE for o, _ in calls[1:]) and rerun("onerow-ignores-seen"):
@@ -846,6 +930,143 @@ def classify(hname, args, rep):
         return (K_MERGED, "MergedResult: close()/one()... do not close the merged row iterator (rows are still "
                           "delivered / no ResourceClosedError): " + desc)
     return ("C10:%s:%s:%s" % (hname, cfg, _fmt(calls)), desc + " disagrees with the list model (%s)" % rep.get("exception"))
+
+
+# Documentation only (not used by the check): a patch that makes the four findings above disappear (checked with
+# this module against a patched copy of lib/, and with test/base/test_result.py, test/sql/test_resultset.py,
+# test/orm/test_query.py, test/orm/test_loading.py: all pass).
+SUGGESTED_FIXES = r"""
+diff -ru /repo/lib/sqlalchemy/engine/_result_cy.py lib/sqlalchemy/engine/_result_cy.py
+--- /repo/lib/sqlalchemy/engine/_result_cy.py	2026-09-11 03:18:07.352572464 +0000
++++ lib/sqlalchemy/engine/_result_cy.py	2026-09-22 04:16:47.674909483 +0000
+@@ -541,14 +541,37 @@
+             else:
+                 return None
+ 
+-        if scalar and self._source_supports_scalars:
++        if (
++            scalar
++            and self._source_supports_scalars
++            and not self._unique_filter_state
++        ):
+             self._generate_rows = False
+             make_row = None
+         else:
++            # with uniquing, keep producing rows so that the objects
++            # compared against the "seen" collection are of the same
++            # form as the ones other fetch methods have added to it
+             make_row = self._row_getter[0]
+ 
+         try:
+             row = make_row(row) if make_row is not None else row  # type: ignore[assignment] # noqa: E501
++            if self._unique_filter_state:
++                # rows already delivered by earlier fetches are not
++                # candidates for "the first row"
++                seen, seen_strategy = self._unique_strategy
++                while (
++                    seen_strategy(row) if seen_strategy is not None else row
++                ) in seen:
++                    row = onerow(hard_close=True)
++                    if row is None:
++                        if raise_for_none:
++                            raise exc.NoResultFound(
++                                "No row was found when one was required"
++                            )
++                        else:
++                            return None
++                    row = make_row(row) if make_row is not None else row  # type: ignore[assignment] # noqa: E501
+         except:
+             self._soft_close(hard=True)
+             raise
+@@ -557,7 +580,7 @@
+             if self._unique_filter_state:
+                 # for no second row but uniqueness, need to essentially
+                 # consume the entire result :(
+-                strategy = self._unique_strategy[1]
++                seen, strategy = self._unique_strategy
+ 
+                 existing_row_hash = (
+                     strategy(row) if strategy is not None else row
+@@ -578,9 +601,13 @@
+ 
+                         if strategy is not None:
+                             # assert next_row is not _NO_ROW
+-                            if existing_row_hash == strategy(next_row):
++                            next_hash = strategy(next_row)
++                            if (
++                                existing_row_hash == next_hash
++                                or next_hash in seen
++                            ):
+                                 continue
+-                        elif row == next_row:
++                        elif row == next_row or next_row in seen:
+                             continue
+                         # here, we have a row and it's different
+                         break
+diff -ru /repo/lib/sqlalchemy/engine/cursor.py lib/sqlalchemy/engine/cursor.py
+--- /repo/lib/sqlalchemy/engine/cursor.py	2026-09-11 03:18:07.352572464 +0000
++++ lib/sqlalchemy/engine/cursor.py	2026-09-22 02:52:21.515667176 +0000
+@@ -1542,7 +1542,7 @@
+ 
+         rb = self._rowbuffer
+         rows = [rb.popleft() for _ in range(min(size, len(rb)))]
+-        if not rows:
++        if not rows and not rb:
+             result._soft_close()
+         return rows
+ 
+diff -ru /repo/lib/sqlalchemy/engine/result.py lib/sqlalchemy/engine/result.py
+--- /repo/lib/sqlalchemy/engine/result.py	2026-09-11 03:18:07.354825110 +0000
++++ lib/sqlalchemy/engine/result.py	2026-09-22 02:52:21.490174009 +0000
+@@ -1941,10 +1941,19 @@
+         self.chunks = chunks
+         self._source_supports_scalars = source_supports_scalars
+         self.raw = raw
+-        self.iterator = itertools.chain.from_iterable(self.chunks(None))
++        self._current_chunk: Iterator[Any] = iter(())
++        self.iterator = self._iter_chunks(None)
+         self.dynamic_yield_per = dynamic_yield_per
+         self.context = context
+ 
++    def _iter_chunks(self, num: Optional[int]) -> Iterator[Any]:
++        # rows left over from the chunk in progress come first, so that
++        # changing the chunk size never drops rows already fetched
++        yield from self._current_chunk
++        for chunk in self.chunks(num):
++            self._current_chunk = iter(chunk)
++            yield from self._current_chunk
++
+     @_generative
+     def yield_per(self, num: int) -> Self:
+         # TODO: this throws away the iterator which may be holding
+@@ -1954,7 +1963,7 @@
+         # keep track.
+ 
+         self._yield_per = num
+-        self.iterator = itertools.chain.from_iterable(self.chunks(num))
++        self.iterator = self._iter_chunks(num)
+         return self
+ 
+     def _soft_close(self, hard: bool = False, **kw: Any) -> None:
+@@ -1965,7 +1974,7 @@
+         self, size: Optional[int] = None
+     ) -> List[_InterimRowType[Row[Unpack[TupleAny]]]]:
+         if self.dynamic_yield_per:
+-            self.iterator = itertools.chain.from_iterable(self.chunks(size))
++            self.iterator = self._iter_chunks(size)
+         return super()._fetchmany_impl(size=size)
+ 
+ 
+@@ -2008,5 +2017,8 @@
+     def _soft_close(self, hard: bool = False, **kw: Any) -> None:
+         for r in self._results:
+             r._soft_close(hard=hard, **kw)
++        # also drop the merged iterator, which still refers to the
++        # iterators of the sub-results as they were before closing
++        super()._soft_close(hard=hard, **kw)
+         if hard:
+             self.closed = True
+"""
 
 
 def run(tier: str, seed: int):
